@@ -51,6 +51,8 @@ OpsCells == {Asg("c", "+", I(1)), Asg("c", "*", I(2)), Asg("c", "/", I(0)), Dere
 OpsRender == {Asg("s", "=", R("s")), Asg("s", "=", R("c")), Asg("s", "=", I(1)), Render("s"), Deref("s"),
               Asg("c", "+", I(1)), Render("c")}
 
+OpsLive == {Asg("s", "=", R("s")), Render("s"), Asg("c", "+", I(1)), Asg("c", "/", I(0)), Deref("c")}
+
 OpsT3 == {Asg("c", "+", I(1)), Asg("c", "*", I(2)), Asg("c", "/", I(0)), Deref("c")}
 
 \* unordered tuples of programs (threads are interchangeable): index-sorted
@@ -65,7 +67,9 @@ MCProgSpace ==
          IF Thorough THEN Pairs(SeqsUpTo(OpsFull, 2))
          ELSE {<<p, q>> : p \in SeqsUpTo(OpsFull, 2), q \in SeqsUpTo(OpsSmall, 1)}
               \cup Pairs(SeqsUpTo(OpsSmall, 2))
-    [] Config = "cells" -> Pairs(SeqsUpTo(OpsCells, 2))
+    [] Config = "cells" ->
+         IF Thorough THEN Pairs(SeqsUpTo(OpsCells, 2))
+         ELSE {<<p, q>> : p \in SeqsUpTo(OpsCells, 2), q \in SeqsUpTo(OpsCells, 1)}
     [] Config = "render" ->
          IF Thorough THEN Pairs(SeqsUpTo(OpsRender, 2))
          ELSE {<<p, q>> : p \in SeqsUpTo(OpsRender, 2), q \in SeqsUpTo(OpsRender, 1)}
@@ -76,7 +80,8 @@ MCProgSpace ==
                           <<<<Asg("s", "=", R("s")), Asg("s", "=", R("s"))>>, <<Render("s"), Render("s")>>>>}
     [] Config = "split" -> {<<<<Asg("c", "+", I(1))>>, <<Asg("c", "+", I(1))>>>>}
     [] Config = "live" ->
-         Pairs(SeqsUpTo({Asg("s", "=", R("s")), Render("s"), Asg("c", "+", I(1)), Asg("c", "/", I(0)), Deref("c")}, 2))
+         IF Thorough THEN Pairs(SeqsUpTo(OpsLive, 2))
+         ELSE {<<p, q>> : p \in SeqsUpTo(OpsLive, 2), q \in SeqsUpTo(OpsLive, 1)}
 
 (***************************************************************************)
 (* Emission (POSTCONDITION): every case of the space with the outcomes the  *)
@@ -86,6 +91,15 @@ Out == IOEnv.VERIF_OUT
 
 CaseSeq == SetToSeq(MCProgSpace \X MCInitSpace)
 
+\* every serial order of the atomic operations with the outcome it gives (forced schedules);
+\* ord = the thread that takes the next atomic step
+RECURSIVE OrdersFrom(_, _, _)
+OrdersFrom(p, cf, ord) ==
+  LET live == {t \in DOMAIN p : ~ADone(p, cf, t)} IN
+  IF live = {} THEN {[ord |-> ord, out |-> OutcomeOf(cf.val, cf.res)]}
+  ELSE UNION {OrdersFrom(p, AStep(p, cf, t), Append(ord, t)) : t \in live}
+WithOrders == Config \in {"ops", "cells", "t3", "t3x"}
+
 Emit ==
   /\ TLCGet("stats").distinct > 0
   /\ ndJsonSerialize(Out \o "/conc_cases_" \o Config \o ".ndjson",
@@ -94,7 +108,8 @@ Emit ==
                i == CaseSeq[n][2]
            IN [id |-> n, config |-> Config, progs |-> p, init |-> i, types |-> MCCellType,
                depth |-> RenderDepth,
-               outcomes |-> SetToSeq(SerialOutcomes(p, i))]])
+               outcomes |-> SetToSeq(SerialOutcomes(p, i)),
+               orders |-> IF WithOrders THEN SetToSeq(OrdersFrom(p, AInit(p, i), <<>>)) ELSE <<>>]])
   /\ PrintT(<<"CASES", Config, Len(CaseSeq)>>)
 
 NoEmit == TLCGet("stats").distinct > 0
